@@ -199,6 +199,7 @@ def check(ctx):
     ctx.rule("C17-R2", "interprocedural constant flow: the key-value facade passes True for the sync flag; the flag parameter is forwarded unmodified into executor.submit at the write routine's flag position")
     ctx.rule("C17-R3", "MUST-PASS: every normal return of the submitting function is preceded by .result() on the future of the write it submitted, outside any swallowing handler")
     ctx.rule("C17-R4", "isolation: every file-system mutation reachable from the key-value set targets join(root_path, file_name) of the key (makedirs: its dirname); no delete/rename/shared index file")
+    ctx.rule("C17-R5", "the facade set hands the value to the cache update on every normal path (no skipped write), and nothing reachable from the store facade classes (constructors included) other than the write routine creates, renames or deletes files")
     ctx.trust("open(p,'wb') is buffered: write() reaches the kernel only at flush()/close()", "os.fsync(fd) syncs what the kernel holds for fd",
               "Future.result() blocks until the callable finished and re-raises its exception")
 
@@ -210,6 +211,7 @@ def check(ctx):
         _check_write_routine(ctx, W)
         _check_flag_flow(ctx, cg, W)
     _check_isolation(ctx, cg, writers)
+    _check_facade_reaches_write(ctx, cg, writers)
     # one file per key also needs the key -> file name mapping to be injective (shared with C16-R2)
     from . import c16
     c16.check_key_mapping(ctx, repo, "C17-R4")
@@ -440,6 +442,72 @@ def _check_blocks(ctx, cg, G, W):
                    construct="result() under swallowing handler", msg="future.result() sits in a try whose handler does not re-raise: a failed write would be reported as a completed set")
 
 
+# ------------------------------------------------------------------ R5
+class _ReachSem(Sem):
+    """state: the cache update has been called on every path reaching here"""
+    base_exc_escapes = False
+
+    def __init__(self, pred):
+        self.pred = pred
+
+    def join2(self, a, b):
+        return a and b
+
+    def transfer(self, st, state):
+        return state or any(self.pred(c) for c in calls_in(st))
+
+
+def _check_facade_reaches_write(ctx, cg, writers):
+    repo = ctx.repo
+    n = 0
+    for f in facade_setters(repo, cg):
+        if f.name != "set":
+            continue
+
+        def leads(c, _f=f):
+            if not (isinstance(c.func, ast.Attribute) and (dotted(c.func.value) or "").startswith("self.")):
+                return False
+            return any(set(cg.reachable([g])) & {w.fq for w in writers} for g in cg.resolve_call(_f, c))
+        if not any(leads(c) for c in calls_in(f.node)):
+            continue
+        n += 1
+        ctx.instance("C17-R5", f.fq, "set reaches the write")
+        exits = _ReachSem(leads).run(f.node, False)
+        bad = [e for e in exits if e.kind == "return" and not e.state]
+        ctx.ob("C17-R5", f.fq, "every normal return of the facade set has called the cache update that writes the value", not bad,
+               node=bad[0].node if bad else f.node, construct="set returns without writing",
+               msg=f"{f.fq} can return normally (line {bad[0].line if bad else 0}) without handing the value to the cache: the caller is told the set completed although nothing durable was written",
+               path=f"entry {f.fq} -> return@{bad[0].line if bad else 0}")
+    ctx.floor("C17-R5", "facade set methods that write through the cache", n, 1)
+    allowed = {w.fq for w in writers}
+    n_scan = 0
+    # everything any method of a store facade class (constructor included) can reach
+    fac_classes = {(f.module.name, f.cls) for f in facade_setters(repo, cg)}
+    roots = [g for g in repo.all_funcs(DB_MODULES) if (g.module.name, g.cls) in fac_classes]
+    reach = set(cg.reachable(roots))
+    ctx.note("store_facade_reach", len(reach))
+    for fq in sorted(reach):
+        g = repo.fn(fq)
+        mn = g.module.name
+        if not mn.startswith("db/"):
+            continue
+        for c in calls_in(g.node):
+            nm = callee_name(c)
+            d = dotted(c.func) or ""
+            creates = (nm == "open" and isinstance(c.func, ast.Name) and any(ch in _open_mode(c) for ch in "wax+")) or d == "os.open" or \
+                (nm in FS_MUTATORS and nm != "makedirs" and (d.startswith(("os.", "shutil.", "pathlib.")) or nm in ("write_bytes", "write_text", "unlink", "touch")))
+            n_scan += 1
+            if not creates:
+                continue
+            where = fq
+            ok = any(where == a or where.startswith(a + ".") for a in allowed)
+            ctx.ob("C17-R5", where, "files under the store are created/changed only by the write routine", ok, node=c,
+                   construct=f"{d or nm} outside the write routine",
+                   msg=f"{where} creates or changes a file with {d or nm}: state of the store that no set wrote (lock, index, marker files) survives a crash and can make every completed key unreadable")
+    ctx.instance("C17-R5", "klongpy/db", "who-may-create scan")
+    ctx.control("C17-R5", f"calls scanned in the functions reachable from the store facades ({n_scan} in {len(reach)} functions)", n_scan >= 50 and len(reach) >= 15)
+
+
 # ------------------------------------------------------------------ R4
 def _resolve_local(expr, fnode, depth=3):
     """follow single-assignment local names"""
@@ -520,6 +588,12 @@ SEEDS = [
     Seed("flush-after-fsync", "fault", "db/file_cache",
          "                f.flush()\n                os.fsync(f.fileno())\n", "                os.fsync(f.fileno())\n                f.flush()\n", rule="C17-R1"),
     Seed("write-only-when-nonempty", "fault", "db/file_cache", "            f.write(new_file_contents)\n            if use_fsync:", "            if len(new_file_contents) > 1:\n                f.write(new_file_contents)\n            if use_fsync:", rule="C17-R1"),
+    Seed("set-skips-unchanged", "fault", "db/sys_fn_kvs", "        self.cache.update_file(key_to_file_path(x), serialize_obj(y), use_fsync=True)",
+         "        data = serialize_obj(y)\n        if getattr(self, '_last', {}).get(x) == data:\n            return\n        self._last = {x: data}\n        self.cache.update_file(key_to_file_path(x), data, use_fsync=True)", rule="C17-R5"),
+    Seed("init-writes-marker", "fault", "db/sys_fn_kvs", "        self.cache = FileCache(root_path=root_path, max_memory=max_memory)",
+         "        import os\n        os.makedirs(root_path, exist_ok=True)\n        with open(os.path.join(root_path, '.owner'), 'x') as f:\n            f.write(str(os.getpid()))\n        self.cache = FileCache(root_path=root_path, max_memory=max_memory)", rule="C17-R5"),
+    Seed("refactor-set-local", "refactor", "db/sys_fn_kvs", "        self.cache.update_file(key_to_file_path(x), serialize_obj(y), use_fsync=True)",
+         "        data = serialize_obj(y)\n        path = key_to_file_path(x)\n        self.cache.update_file(path, data, use_fsync=True)"),
     Seed("kvs-no-fsync", "fault", "db/sys_fn_kvs", "serialize_obj(y), use_fsync=True)", "serialize_obj(y))", rule="C17-R2"),
     Seed("kvs-false", "fault", "db/sys_fn_kvs", "use_fsync=True)", "use_fsync=False)", rule="C17-R2"),
     Seed("submit-drops-flag", "fault", "db/file_cache", "new_file_contents, use_fsync)\n                self.file_futures[file_name] = (True",
